@@ -5,6 +5,10 @@
 (*   Fetch (with the configuration it left)   RoundStart / RoundEnd    SignReq                      *)
 (*   RelayStart / RelayBatch / RelayFinish   NodeStart / NodeFinish                                  *)
 (*   PrepStart / PrepCall / PrepReturn / PrepEnd   FwdStart / FwdEnd                                 *)
+(*   F2Start / F2RelayStart / F2RelayBatch / F2RelayFinish / F2End   a REST forwarding call made WHILE a     *)
+(*                        registration round is in flight (its own lane: the fakes tell the lanes apart   *)
+(*                        by a value the driver put into the call's context)                              *)
+(*   Hung                 a step did not return (watchdog): no action of the specification explains it    *)
 (* Every call to a relay or node is a process of its own: Start carries what the client was handed  *)
 (* and whether the call's context was already cancelled (cx), Batch what the relay received, Finish  *)
 (* the outcome ("ctx" = the fake saw its context cancelled before the call completed).  The order   *)
@@ -37,6 +41,8 @@ TraceReset ==
     /\ latestSigned' = [v \in AllV |-> <<>>]
     /\ controlled' = {}
     /\ rounds' = 0
+    /\ fw' = NoFw
+    /\ slotHeld' = {}
     /\ UNCHANGED <<lockVars, opVars>>
 
 \* logged projection of a configuration: sequence of [v, ok, fee, rel]
@@ -70,12 +76,24 @@ TraceFwdStart ==
     /\ FwdStart({[v |-> x[1], fee |-> x[2], gas |-> x[3]] : x \in SeqToSet(Line.regs)})
 TraceFwdEnd == IsEvent("FwdEnd") /\ EndRound("fwd")
 
-TraceNext ==
-    \/ TraceReset \/ TraceFetch
+\* the second forwarding lane
+TraceF2Start ==
+    /\ IsEvent("F2Start")
+    /\ F2Start({[v |-> x[1], fee |-> x[2], gas |-> x[3]] : x \in SeqToSet(Line.regs)})
+TraceF2RelayStart == IsEvent("F2RelayStart") /\ RecordF2RelayStart(Line.r, SeqToSet(Line.regs), Line.cx)
+TraceF2RelayBatch == IsEvent("F2RelayBatch") /\ RecordF2RelayDeliver(Line.r, SeqToSet(Line.regs))
+TraceF2RelayFinish == IsEvent("F2RelayFinish") /\ RecordF2RelayFinish(Line.r, Line.out)
+TraceF2End == IsEvent("F2End") /\ RecordF2End
+
+TraceCore ==
+    \/ TraceFetch
     \/ TraceRoundStart \/ TraceSignReq \/ TraceRoundEnd
     \/ TraceRelayStart \/ TraceRelayBatch \/ TraceRelayFinish \/ TraceNodeStart \/ TraceNodeFinish
     \/ TracePrepStart \/ TracePrepCall \/ TracePrepReturn \/ TracePrepEnd
     \/ TraceFwdStart \/ TraceFwdEnd
+TraceLane2 == TraceF2Start \/ TraceF2RelayStart \/ TraceF2RelayBatch \/ TraceF2RelayFinish \/ TraceF2End
+
+TraceNext == TraceReset \/ Core(TraceCore) \/ Lane2(TraceLane2)
 
 TraceSpec == TraceInit /\ [][TraceNext]_tvars
 
